@@ -253,16 +253,76 @@ def h_registry(ctx, order, half=False):
   ctx.check('ConnectionUp once per connection', ups.count(c1) == 1 and ups.count(c2) == (0 if half else 1))
 
 
+def h_registry3(ctx, order):
+  """three connections, each with a symbolic 64-bit dpid (every aliasing pattern); order: 'A'/'B'/'C' = connection 1/2/3 connects and completes its
+  handshake, 'a'/'b'/'c' = it is lost, 's' = sendToDPID probe for a solver-chosen one of the three dpids.  Connects, losses and reconnects interleave."""
+  HOLD[0] = False; HELD[0] = None
+  core, of01, of, nexus, log = setup(ctx)
+  addrs = ctx.pox('pox.lib.addresses')
+  dp = [ctx.int('dpid%d' % (i + 1), 0, (1 << 64) - 1) for i in range(3)]
+  socks = [None] * 3; cons = [None] * 3; live = [False] * 3; rank = [None] * 3; closed_after = [None] * 3
+  nup = 0
+  def expected(d):
+    c = [i for i in range(3) if live[i] and bool(dp[i] == d)]
+    return max(c, key=lambda i: rank[i]) if c else None
+  def stale(d):
+    """a connection of this dpid that handshook after the expected one has been lost meanwhile (the registry keeps one slot per dpid: known finding)"""
+    e = expected(d)
+    return e is not None and any(rank[i] is not None and not live[i] and rank[i] > rank[e] and bool(dp[i] == d) for i in range(3))
+  def check_registry(tag):
+    seen = []
+    for i in range(3):
+      if rank[i] is None: continue
+      d = dp[i]; e = expected(d)
+      pre = '[stale-survivor] ' if stale(d) else ''
+      ctx.check('%s%s: registry maps dpid%d to the most recent live connection' % (pre, tag, i + 1), nexus.getConnection(d) is (cons[e] if e is not None else None))
+      if e is not None and e not in seen: seen.append(e)
+    pre = '[stale-survivor] ' if any(rank[i] is not None and stale(dp[i]) for i in range(3)) else ''
+    ctx.check('%s%s: registry size' % (pre, tag), len(nexus.connections) == len(seen))
+  for k, ch in enumerate(order):
+    if ch in 'ABC':
+      i = 'ABC'.index(ch)
+      socks[i] = env.FakeSocket(eof=False); cons[i] = of01.Connection(socks[i])
+      handshake(ctx, of01, of, socks[i], cons[i], dp[i], addrs)
+      live[i] = True; rank[i] = nup; nup += 1
+    elif ch in 'abc':
+      i = 'abc'.index(ch)
+      if live[i]:
+        socks[i].eof = True; cons[i].read(); cons[i].close(); live[i] = False
+    elif ch == 's':
+      which = int(ctx.int('probe%d' % k, 0, 2))
+      if rank[which] is None: continue
+      d = dp[which]
+      before = [len(x.sent) if x is not None else 0 for x in socks]
+      r = nexus.sendToDPID(d, of.ofp_echo_request(xid=0x5e5e).pack())
+      e = expected(d)
+      pre = '[stale-survivor] ' if stale(d) else ''
+      ctx.check(pre + 'sendToDPID result', r == (e is not None))
+      got = tuple((len(x.sent) if x is not None else 0) - b for x, b in zip(socks, before))
+      ctx.check(pre + 'sendToDPID reaches only the most recent live connection', got == tuple(1 if i == e else 0 for i in range(3)))
+    check_registry('after %s#%d' % (ch, k))
+  pat = (bool(dp[0] == dp[1]), bool(dp[1] == dp[2]), bool(dp[0] == dp[2]))
+  ctx.witness('all-same' if all(pat) else 'all-different' if not any(pat) else 'two-same')
+  ups = [x[1] for x in log if x[0] == 'up']; downs = [x[1] for x in log if x[0] == 'down']
+  for i in range(3):
+    if cons[i] is None: continue
+    ctx.check('ConnectionUp once per connection', ups.count(cons[i]) == 1)
+    ctx.check('ConnectionDown once per lost connection', downs.count(cons[i]) == (0 if live[i] else 1))
+
+
 def obligations(tier):
   thorough = tier != 'quick'
   scripts = ['HFB+p', 'HFB+p+e+pL', 'HFp+B+p', 'H+Fp+B+pL', 'H+FB', 'HFE+p', 'HFB+i+p', 'HFp+e+B+p+i+pL', 'HFBX', 'HFpBpX', 'HFX', 'HFB', 'HFE', 'HFpB', 'HFpepB', 'HFpiBp', 'HFBL', 'HFL', 'HL', 'HFpL', 'HBFB', 'FHB', 'HFEB', 'HFBB', 'HFpEpL', 'HpFB', 'HFeBpL']
   if thorough: scripts += ['HFppBpL', 'HFEEB', 'HFpBpBL', 'HFiepEeL', 'HHFFB', 'HFBpLp', 'HFpeipB', 'L', 'HFEpEL']
   orders = ['', 's', 'as', 'bs', 'abs', 'bas', 'sas', 'asbs', 'sbsa']
-  BOUNDS[tier] = dict(handshake_scripts=scripts, legend="x+y: x and y arrive in one recv() chunk; X fatal error on a controller send then loop close, H hello, F features reply(sym dpid), p port_status(sym port), e echo, i packet_in, "
+  orders3 = ['ABCs', 'ABCcsbsa', 'ABaCsbs', 'AaBsCsc', 'ABbCscs', 'ABCasbsc'] + (['ABCbscsa', 'ABCcasb', 'AaBbCcs', 'ABaCbsAs'.replace('As', 's'), 'ABCsasbs'] if thorough else [])
+  BOUNDS[tier] = dict(registry3_orders=orders3, handshake_scripts=scripts, legend="x+y: x and y arrive in one recv() chunk; X fatal error on a controller send then loop close, H hello, F features reply(sym dpid), p port_status(sym port), e echo, i packet_in, "
                       "B barrier reply(sym xid), E error(sym xid/type/code), L loss", registry_orders=orders, connections=2)
   return [
     Obligation('O1_handshake', h_handshake, [dict(script=s) for s in scripts], witnesses=('up', 'lost', 'bad-barrier', 'coalesced'), max_decisions=20000,
                desc='ConnectionUp/Down exactly once, ordering of deferred port-status, registry entry, for each handshake script'),
     Obligation('O2_registry', h_registry, [dict(order=o) for o in orders] + [dict(order=o, half=True) for o in ('bs', 'sbs', 'bas', 'abs')], witnesses=('same-dpid', 'different-dpid'), max_decisions=20000,
                desc='two connections with possibly equal dpids: registry == most recent live handshaken connection; sendToDPID target'),
+    Obligation('O3_registry3', h_registry3, [dict(order=o) for o in orders3], witnesses=('all-same', 'all-different', 'two-same'), max_decisions=20000,
+               desc='three connections (symbolic dpids, all aliasing patterns), connects / losses / reconnects interleaved: registry and sendToDPID follow the most recent live connection'),
   ]
